@@ -8,6 +8,10 @@ import BronVerif.Lemmas.GaussJordanSolve
 import BronVerif.Lemmas.GaussJordanDet
 import BronVerif.Lemmas.GaussJordanMatrix
 import BronVerif.Lemmas.GaussJordanInverse
+import BronVerif.Lemmas.LinAlgMatrix
+import Mathlib.LinearAlgebra.Matrix.NonsingularInverse
+import Mathlib.LinearAlgebra.Matrix.Nondegenerate
+import Mathlib.LinearAlgebra.Finsupp.LinearCombination
 import BronVerif.Lemmas.FpField
 import Mathlib.Tactic.NormNum.Prime
 /-!
@@ -157,6 +161,155 @@ theorem det_ne_zero_iff_inverse (m : Mat F) (hW : ∀ row ∈ m, row.length = m.
     det m ≠ 0 ↔ inverse m ≠ none := by
   rw [det_eq m hW, Ne, Ne, inverse_eq_none_iff_det m hW]
 
+/-- **`TryInv` is correct**: it returns `b` iff `det m ≠ 0` and `b` is the (well-shaped) list form of
+Mathlib's `(toMatrix m)⁻¹`; in particular the answer is unique. -/
+theorem inv_correct (m : Mat F) (hW : ∀ row ∈ m, row.length = m.length) (b : Mat F) :
+    inverse m = some b ↔
+      Matrix.det (toMatrix m.length m) ≠ 0 ∧ b.length = m.length ∧
+        (∀ row ∈ b, row.length = m.length) ∧ toMatrix m.length b = (toMatrix m.length m)⁻¹ := by
+  constructor
+  · intro h
+    obtain ⟨⟨hl, hbW⟩, hleft, _⟩ := inverse_sound m hW b h
+    refine ⟨?_, hl, hbW, (Matrix.inv_eq_left_inv hleft).symm⟩
+    rw [Ne, ← inverse_eq_none_iff_det m hW, h]; simp
+  · rintro ⟨hd, hl, hbW, hinv⟩
+    cases h : inverse m with
+    | none => exact absurd ((inverse_eq_none_iff_det m hW).mp h) hd
+    | some b' =>
+      obtain ⟨⟨hl', hbW'⟩, hleft', _⟩ := inverse_sound m hW b' h
+      congr 1
+      exact eq_of_toMatrix_eq b' b m.length hl' hl hbW' hbW
+        ((Matrix.inv_eq_left_inv hleft').symm.trans hinv.symm)
+
+/-- `SolveLeft` *is* `SolveRight` on the transposed system (by definition of the model, mirroring the
+in-place construction of `[Mᵀ | rᵀ]` in `SolveLeft`), also with the shape-reading `transpose` -/
+theorem solveLeft_eq_solveRight_transpose (m : Mat F) (n : ℕ) (r : List F) :
+    solveLeft m n r = solveRight (transposeN m n) m.length r ∧
+      (numCols m = n → solveLeft m n r = solveRight (transpose m) m.length r) :=
+  ⟨rfl, fun h => by subst h; rfl⟩
+
+omit [DecidableEq F] in
+/-- **`Transpose` is an involution** (`r × c` with `r, c ≥ 1`) -/
+theorem transpose_transpose (m : Mat F) (c : ℕ) (hne : m ≠ []) (hW : ∀ row ∈ m, row.length = c)
+    (hc : 0 < c) : transpose (transpose m) = m :=
+  LinAlg.transpose_transpose m c hne hW hc
+
+omit [DecidableEq F] in
+/-- `Transpose` is Mathlib's transpose -/
+theorem transpose_eq (m : Mat F) (c : ℕ) (hc : numCols m = c) :
+    toMat c m.length (transpose m) = (toMat m.length c m).transpose :=
+  toMat_transpose m c hc
+
+omit [DecidableEq F] in
+/-- **`TryMul` is the matrix product**: the array model `mul` read through `toMat` is `Matrix.mul` -/
+theorem mul_eq (a b : Mat F) (k c : ℕ) (hb : b.length = k) (hbW : ∀ row ∈ b, row.length = c) :
+    toMat a.length c (mul a b) = toMat a.length k a * toMat k c b :=
+  toMat_mul a b a.length k c rfl hb (rows_le_numCols_of_shape b c hbW)
+
+omit [DecidableEq F] in
+/-- hence **associativity** of the array product (shapes `r × k`, `k × l`, `l × s`; `Matrix.mul_assoc`) -/
+theorem mul_assoc (a b c : Mat F) (k l s : ℕ) (hb : b.length = k) (hc : c.length = l)
+    (hbW : ∀ row ∈ b, row.length = l) (hcW : ∀ row ∈ c, row.length = s) :
+    toMat a.length s (mul (mul a b) c) = toMat a.length s (mul a (mul b c)) := by
+  have h1 := toMat_mul (mul a b) c a.length l s (mul_length a b) hc (rows_le_numCols_of_shape c s hcW)
+  have h2 := toMat_mul a b a.length k l rfl hb (rows_le_numCols_of_shape b l hbW)
+  have h3 := toMat_mul a (mul b c) a.length k s rfl ((mul_length b c).trans hb)
+    (rows_le_numCols_of_shape _ _ (mul_row_length b c))
+  have h4 := toMat_mul b c k l s hb hc (rows_le_numCols_of_shape c s hcW)
+  rw [h1, h2, h3, h4, Matrix.mul_assoc]
+
+/-- the product with the inverse returned by `TryInv` is the identity, in the array model's own `mul` -/
+theorem mul_inverse (m : Mat F) (hW : ∀ row ∈ m, row.length = m.length) (b : Mat F)
+    (h : inverse m = some b) :
+    toMat m.length m.length (mul m b) = 1 ∧ toMat m.length m.length (mul b m) = 1 := by
+  obtain ⟨⟨hl, hbW⟩, hleft, hright⟩ := inverse_sound m hW b h
+  constructor
+  · rw [mul_eq m b m.length m.length hl hbW]; exact hright
+  · rw [toMat_mul b m m.length m.length m.length hl rfl (rows_le_numCols_of_shape m _ hW)]
+    exact hleft
+
+/-! ### completeness corollaries: rank-deficient, over- and under-determined systems -/
+
+/-- **`SolveRight` succeeds exactly on the solvable systems**, whatever the shape and rank -/
+theorem solveRight_isSome_iff (m : Mat F) (n : ℕ) (b : List F) (hm : ∀ row ∈ m, row.length = n)
+    (hb : b.length = m.length) :
+    (solveRight m n b).isSome ↔ ∃ v : Fin n → F, (toMat m.length n m).mulVec v = toVec m.length b := by
+  cases h : solveRight m n b with
+  | none =>
+    simp only [Option.isSome_none, Bool.false_eq_true, false_iff]
+    exact solveRight_complete_matrix m n b hm hb h
+  | some x =>
+    simp only [Option.isSome_some, true_iff]
+    exact ⟨_, solveRight_sound_matrix m n b hm hb x h⟩
+
+/-- a right-hand side in the image (`b = M x₀`; this is the harness's `inSpan` oracle) is always
+solved — also when `M` is rank-deficient or has more rows than columns (over-determined) or fewer
+(under-determined; the returned solution then need not be `x₀`) -/
+theorem solveRight_of_image (m : Mat F) (n : ℕ) (x₀ : List F) (hm : ∀ row ∈ m, row.length = n)
+    (hx : x₀.length = n) :
+    ∃ x, solveRight m n (mulVec m x₀) = some x ∧ x.length = n ∧ mulVec m x = mulVec m x₀ := by
+  have hb : (mulVec m x₀).length = m.length := by simp [mulVec]
+  cases h : solveRight m n (mulVec m x₀) with
+  | none => exact absurd ⟨x₀, hx, rfl⟩ (solveRight_complete m n _ hm hb h)
+  | some x => exact ⟨x, rfl, solveRight_sound m n _ hm hb x h⟩
+
+/-- the homogeneous system is always solved (every shape, every rank) -/
+theorem solveRight_zero_rhs (m : Mat F) (n : ℕ) (hm : ∀ row ∈ m, row.length = n) :
+    (solveRight m n (List.replicate m.length 0)).isSome := by
+  rw [solveRight_isSome_iff m n _ hm (by simp)]
+  refine ⟨0, ?_⟩
+  rw [Matrix.mulVec_zero]
+  funext i
+  simp [toVec, List.getD_eq_getElem?_getD]
+
+/-- full row rank (e.g. an under-determined system with independent equations): every right-hand
+side is solved -/
+theorem solveRight_of_surjective (m : Mat F) (n : ℕ) (hm : ∀ row ∈ m, row.length = n)
+    (hsurj : Function.Surjective (toMat m.length n m).mulVec) (b : List F) (hb : b.length = m.length) :
+    (solveRight m n b).isSome :=
+  (solveRight_isSome_iff m n b hm hb).mpr (hsurj _)
+
+/-- square non-singular system: `SolveRight` returns **the** solution `M⁻¹ b` -/
+theorem solveRight_nonsingular (m : Mat F) (b : List F) (hm : ∀ row ∈ m, row.length = m.length)
+    (hb : b.length = m.length) (hd : Matrix.det (toMatrix m.length m) ≠ 0) :
+    ∃ x, solveRight m m.length b = some x ∧
+      toVec m.length x = (toMatrix m.length m)⁻¹.mulVec (toVec m.length b) := by
+  have hunit : IsUnit (toMatrix m.length m).det := isUnit_iff_ne_zero.mpr hd
+  have hsol : (toMat m.length m.length m).mulVec ((toMatrix m.length m)⁻¹.mulVec (toVec m.length b))
+      = toVec m.length b := by
+    show (toMatrix m.length m).mulVec _ = _
+    rw [Matrix.mulVec_mulVec, Matrix.mul_nonsing_inv _ hunit, Matrix.one_mulVec]
+  cases h : solveRight m m.length b with
+  | none => exact absurd ⟨_, hsol⟩ (solveRight_complete_matrix m m.length b hm hb h)
+  | some x =>
+    refine ⟨x, rfl, ?_⟩
+    have hx := solveRight_sound_matrix m m.length b hm hb x h
+    exact Matrix.mulVec_injective_of_det_ne_zero (M := toMatrix m.length m) hd (hx.trans hsol.symm)
+
+/-- singular square system (rank-deficient): `SolveRight` still answers correctly — it succeeds iff
+`b` is in the column space — while `TryInv` refuses -/
+theorem solveRight_singular (m : Mat F) (b : List F) (hm : ∀ row ∈ m, row.length = m.length)
+    (hb : b.length = m.length) (hd : Matrix.det (toMatrix m.length m) = 0) :
+    inverse m = none ∧
+      ((solveRight m m.length b).isSome ↔
+        ∃ v : Fin m.length → F, (toMatrix m.length m).mulVec v = toVec m.length b) :=
+  ⟨(inverse_eq_none_iff_det m hm).mpr hd, solveRight_isSome_iff m m.length b hm hb⟩
+
+/-- **`SolveLeft` succeeds exactly when the target is in the row span** of `M` (the reconstruction
+question of every linear secret-sharing scheme in the library) -/
+theorem solveLeft_isSome_iff_mem_rowSpan (m : Mat F) (n : ℕ) (r : List F) (hr : r.length = n) :
+    (solveLeft m n r).isSome ↔
+      toVec n r ∈ Submodule.span F (Set.range fun i : Fin m.length => (toMat m.length n m) i) := by
+  rw [Submodule.mem_span_range_iff_exists_fun]
+  simp only [← Matrix.vecMul_eq_sum]
+  cases h : solveLeft m n r with
+  | none =>
+    simp only [Option.isSome_none, Bool.false_eq_true, false_iff]
+    exact solveLeft_complete_matrix m n r hr h
+  | some x =>
+    simp only [Option.isSome_some, true_iff]
+    exact ⟨_, solveLeft_sound_matrix m n r hr x h⟩
+
 /-! ### non-vacuity: concrete systems over `ZMod 7` -/
 
 local instance : Fact (Nat.Prime 7) := ⟨by norm_num⟩
@@ -180,6 +333,38 @@ example : toMatrix 2 ([[0, 2], [3, 4]] : Mat (ZMod 7)) = !![0, 2; 3, 4] := by de
 example : inverse ([[0, 2], [3, 4]] : Mat (ZMod 7)) = some [[4, 5], [4, 0]] := by decide +kernel
 example : inverse ([[1, 2], [2, 4]] : Mat (ZMod 7)) = none := by decide +kernel
 example : ∀ row ∈ ([[0, 2], [3, 4]] : Mat (ZMod 7)), row.length = 2 := by decide
+
+/-- over-determined (3 equations, 2 unknowns): consistent, and inconsistent -/
+example : solveRight (F := ZMod 7) [[1, 2], [3, 1], [4, 3]] 2 [3, 2, 5] = some [3, 0] := by decide +kernel
+example : solveRight (F := ZMod 7) [[1, 2], [3, 1], [4, 3]] 2 [3, 2, 6] = none := by decide +kernel
+/-- under-determined (1 equation, 3 unknowns; two free variables set to zero), and rank-deficient
+under-determined inconsistent -/
+example : solveRight (F := ZMod 7) [[0, 2, 1]] 3 [4] = some [0, 2, 0] := by decide +kernel
+example : solveRight (F := ZMod 7) [[1, 2, 3], [2, 4, 6]] 3 [1, 3] = none := by decide +kernel
+/-- a permutation matrix: two swaps, determinant `+1`; one swap, determinant `-1` -/
+example : det ([[0, 1, 0], [0, 0, 1], [1, 0, 0]] : Mat (ZMod 7)) = 1 := by decide +kernel
+example : det ([[0, 1, 0], [1, 0, 0], [0, 0, 1]] : Mat (ZMod 7)) = 6 := by decide +kernel
+example : mul ([[1, 2], [3, 4]] : Mat (ZMod 7)) [[0, 1, 1], [1, 0, 2]] = [[2, 1, 5], [4, 3, 4]] := by
+  decide +kernel
+example : transpose ([[1, 2, 3], [4, 5, 6]] : Mat (ZMod 7)) = [[1, 4], [2, 5], [3, 6]] := by decide +kernel
+example : ([[1, 2, 3], [4, 5, 6]] : Mat (ZMod 7)) ≠ [] ∧
+    ∀ row ∈ ([[1, 2, 3], [4, 5, 6]] : Mat (ZMod 7)), row.length = 3 := by decide
+example : Matrix.det (toMatrix 2 ([[0, 2], [3, 4]] : Mat (ZMod 7))) ≠ 0 := by
+  have h := det_eq ([[0, 2], [3, 4]] : Mat (ZMod 7)) (by decide)
+  have h2 : det ([[0, 2], [3, 4]] : Mat (ZMod 7)) ≠ 0 := by decide +kernel
+  rw [h] at h2; exact h2
+
+/-- `inv_correct` read left to right on a concrete inverse; `SolveLeft` as `SolveRight` of the transpose;
+a consistent over-determined rank-1 system handed to `solveRight_of_image` -/
+example : toMatrix 2 ([[4, 5], [4, 0]] : Mat (ZMod 7)) = (toMatrix 2 ([[0, 2], [3, 4]] : Mat (ZMod 7)))⁻¹ :=
+  ((inv_correct ([[0, 2], [3, 4]] : Mat (ZMod 7)) (by decide) _).mp (by decide +kernel)).2.2.2
+example : solveLeft ([[1, 3], [2, 1]] : Mat (ZMod 7)) 2 [3, 2]
+    = solveRight (transpose [[1, 3], [2, 1]]) 2 [3, 2] :=
+  (solveLeft_eq_solveRight_transpose _ 2 _).2 (by decide)
+example : ∃ x, solveRight ([[1, 2], [2, 4], [3, 6]] : Mat (ZMod 7)) 2
+      (mulVec [[1, 2], [2, 4], [3, 6]] [5, 1]) = some x ∧ x.length = 2 ∧
+    mulVec ([[1, 2], [2, 4], [3, 6]] : Mat (ZMod 7)) x = mulVec [[1, 2], [2, 4], [3, 6]] [5, 1] :=
+  solveRight_of_image _ 2 [5, 1] (by decide) rfl
 
 /-! ### the executable field `Fp p`
 
